@@ -87,6 +87,8 @@ def install(eng):
     eng.attr_hooks[('global:Tags', '_module_library')] = tags_module_library
     eng.builtin_hooks['hasattr'] = bi_hasattr
     eng.builtin_hooks['dict'] = bi_dict
+    eng.builtin_hooks['dict.update'] = bi_dict_update
+    eng.builtin_hooks['open'] = bi_open
     eng._products = {}
     eng._star_arg = None
     eng.attr_hooks[('module:Tags', '*')] = tags_module_attr
@@ -357,6 +359,61 @@ def ext_partial(eng, selfv, args, kwargs):
     return VFunc('partial', func=args[0], args=list(args[1:]), kwargs=dict(kwargs))
 
 
+# ------------------------------------------------------------------ dict.update / files (assumed, C17)
+def bi_dict_update(eng, args, kwargs, node):
+    """d.update(other) for an opaque mapping `other`: afterwards d has its old keys plus other's keys, other's
+    values winning (keys / values of `other` through the uninterpreted rec_has / rec_get)."""
+    d, other = args
+    eng.used_assumption('dict.update(m): keys of m added to the dictionary, values of m win; m is only read')
+    tk = d.typ.key
+    has, vals, stamp, clock, size = eng.d_parts(d)
+    rec_has = z3.Function('rec_has', I, I, B)
+    rec_get = z3.Function('rec_get', I, I, I)
+    nh = eng.fresh('upd_has', has.sort())
+    nv = eng.fresh('upd_val', vals[0].sort())
+    ns = eng.fresh('upd_stamp', stamp.sort())
+    nsize = eng.fresh('upd_size', I)
+    nclock = eng.fresh('upd_clock', I)
+    k = z3.Int('uk')
+    eng.fact(z3.ForAll([k], z3.Select(nh, k) == z3.Or(z3.Select(has, k), rec_has(other.term, k))))
+    eng.fact(z3.ForAll([k], z3.Select(nv, k) == z3.If(rec_has(other.term, k), rec_get(other.term, k), z3.Select(vals[0], k))))
+    eng.fact(z3.ForAll([k], z3.Implies(z3.Select(has, k), z3.Select(ns, k) == z3.Select(stamp, k))))
+    eng.fact(z3.And(nsize >= size, nclock >= clock))
+    eng.fact(z3.Implies(z3.ForAll([k], z3.Not(rec_has(other.term, k))), nsize == size))
+    eng.fact(z3.Implies(z3.Exists([k], rec_has(other.term, k)), nsize >= 1))
+    eng.set_arr(('dhas', tk), z3.Store(eng.arr(('dhas', tk)), d.term, nh))
+    eng.set_arr(('dval', tk, 0), z3.Store(eng.arr(('dval', tk, 0)), d.term, nv))
+    eng.set_arr(('dstamp', tk), z3.Store(eng.arr(('dstamp', tk)), d.term, ns))
+    eng.set_arr(('dsize', tk), z3.Store(eng.arr(('dsize', tk)), d.term, nsize))
+    eng.set_arr(('dclock', tk), z3.Store(eng.arr(('dclock', tk)), d.term, nclock))
+    return VNone()
+
+
+FILES = ('open(name, mode) in append mode positions at the end of the existing text; file.write(s) appends s; close() keeps '
+         'it (no durability / mid-write crash model): the text of a file is modelled as the list of records written to it')
+
+
+def bi_open(eng, args, kwargs, node):
+    eng.used_assumption(FILES)
+    name = args[0]
+    f = eng.alloc(ty.TRef('File'), cls=z3.IntVal(eng.cls_id('File')))
+    log = z3.Function('file_log', I, I)
+    eng.write_field(f, 'log', VRef(log(name.term), ty.parse('list[any]')))
+    eng.write_field(f, 'mode', args[1] if len(args) > 1 else VStr(eng.ctx.strid('r'), 'r'))
+    return f
+
+
+def ext_file_write(eng, f, args, kwargs):
+    eng.used_assumption(FILES)
+    lg = eng.read_field(f, 'log', ty.parse('list[any]'))
+    eng.list_append(lg, args[0])
+    return VNone()
+
+
+def ext_file_close(eng, f, args, kwargs):
+    return VNone()
+
+
 def ext_any_getitem(eng, obj, args, kwargs):
     eng.used_assumption('indexing a user-supplied table is a pure function of (table, index)')
     k = args[0]
@@ -391,6 +448,7 @@ EXTERNALS = {
     'isinstance': ext_isinstance,
     'any.__call__': ext_any_call,
     'itertools.product': ext_product,
+    'File.write': ext_file_write, 'File.close': ext_file_close,
     'min': _ext_agg('min'), 'max': _ext_agg('max'), 'sum': _ext_agg('sum'),
     'statistics.mean': _ext_agg('mean'), 'statistics.variance': _ext_agg('variance'),
     'functools.partial': ext_partial,
